@@ -9,6 +9,7 @@ use proptest::prelude::*;
 pub struct Weights {
     pub new: u32,
     pub clone: u32,
+    pub clone_from: u32,
     pub new_uninit_adopted: u32,
     pub drop: u32,
     pub drop_closure: u32,
@@ -38,6 +39,7 @@ impl Weights {
         Weights {
             new: 8,
             clone: 8,
+            clone_from: 3,
             new_uninit_adopted: 1,
             drop: 16,
             drop_closure: 3,
@@ -106,6 +108,7 @@ fn plain_op(wt: &Weights) -> BoxedStrategy<Op> {
     let mut v: Vec<(u32, BoxedStrategy<Op>)> = vec![
         (wt.new, Just(Op::New(vec![])).boxed()),
         (wt.clone, s().prop_map(Op::CloneH).boxed()),
+        (wt.clone_from, (s(), s()).prop_map(|(dst, src)| Op::CloneFrom { dst, src }).boxed()),
         (wt.new_uninit_adopted, (s(), any::<bool>()).prop_map(|(target, loopback)| Op::NewUninitAdopted { target, loopback }).boxed()),
         (wt.drop, s().prop_map(Op::DropRoot).boxed()),
         (wt.drop_closure, s().prop_map(Op::DropClosureRoots).boxed()),
@@ -207,7 +210,7 @@ fn op(g: &GenCfg) -> BoxedStrategy<Op> {
     let wn = g.weights.new;
     let total: u32 = {
         let w = &g.weights;
-        w.new + w.clone + w.new_uninit_adopted + w.drop + w.drop_closure + w.store + w.adopt_slot + w.unadopt + w.loopback + w.remove + w.strip + w.unique_root + w.clear_slots + w.downgrade + w.clone_weak + w.drop_weak + w.upgrade + w.store_weak + w.remove_weak + w.weak_new + w.probe + w.consume * 17
+        w.new + w.clone + w.clone_from + w.new_uninit_adopted + w.drop + w.drop_closure + w.store + w.adopt_slot + w.unadopt + w.loopback + w.remove + w.strip + w.unique_root + w.clear_slots + w.downgrade + w.clone_weak + w.drop_weak + w.upgrade + w.store_weak + w.remove_weak + w.weak_new + w.probe + w.consume * 17
     };
     let mut wt = g.weights.clone();
     wt.new = 0;
